@@ -274,11 +274,16 @@ def main(argv=None):
             run.obligations.append(ob)
             if ob['verdict'] == 'proved':
                 proved_names.append(ob['name'])
-            elif ob['verdict'] == 'refuted' and ob['name'] in baseline:
+            elif ob['verdict'] == 'refuted' and (ob['name'] in baseline or ob.get('universal')):
+                # `universal` obligations state a rule for EVERY function of a module: a function that is new
+                # on this tree and breaks the rule has no baseline entry, it is a violation all the same
                 run.add_violation(report.Violation(
                     args.prop, ob['name'], {'obligation': ob['name']}, None,
-                    'frame obligation %s (%s) was discharged on the reference tree and is now refuted: %s'
-                    % (ob['name'], ob['clause'], ob['detail']), False, ob['detail']))
+                    'frame obligation %s (%s) %s and is now refuted: %s'
+                    % (ob['name'], ob['clause'],
+                       'was discharged on the reference tree' if ob['name'] in baseline
+                       else 'holds for every function of the module on the reference tree', ob['detail']),
+                    False, ob['detail']))
             elif ob['name'] in baseline:
                 lost.append(ob)
             if args.verbose or ob['verdict'] != 'proved':
